@@ -4,6 +4,7 @@ package main
 // below every real timestamp (real symbolic timestamps are constrained to (-2^61, 2^61)).
 
 import (
+	"strconv"
 	"time"
 
 	"golang.org/x/tools/go/ssa"
@@ -23,6 +24,15 @@ func (in *Interp) now() *Term {
 		in.addPC(in.ts.ILt(in.ts.Int(realTimeLo), t))
 	}
 	in.addPC(in.ts.ILt(t, in.ts.Int(realTimeHi)))
+	// param clock_window_s: the whole run takes at most that many seconds of wall-clock time (every instant the clock
+	// returns lies within the window after the first one)
+	if w, ok := in.params["clock_window_s"]; ok {
+		if in.firstNow == nil {
+			in.firstNow = t
+		} else if secs, err := strconv.ParseInt(w, 10, 64); err == nil {
+			in.addPC(in.ts.ILe(t, in.ts.IAdd(in.firstNow, in.ts.Int(secs*1000000000))))
+		}
+	}
 	in.lastNow = t
 	return t
 }
